@@ -94,6 +94,10 @@ fn run_case(ctx: &Ctx, index: u64, rep: &mut Report) {
     // (b)+(c) against the model, all four filters
     for (tracing, warnings, run, _) in &runs {
         if let Err((i, why)) = compare_turns(run, &model, CmpOpts { tracing: *tracing, warnings: *warnings }) {
+            if crate::cmp::compare_flat(run, &model, CmpOpts { tracing: *tracing, warnings: *warnings }).is_ok() {
+                rep.count("tolerated.turn_boundaries_differ_from_model");
+                continue;
+            }
             let sig = if why.contains("Warning") { "warning-sequence" } else if why.contains("Trace") { "trace-sequence" } else { "turn-sequence" };
             ctx.violation(rep, "C17", sig, index,
                 format!("tracing={} warnings={}: {}", tracing, warnings, why),
